@@ -190,3 +190,16 @@ def standard_shards(tier, seed, judge, alpha_filter=None, novalidate=False, extr
                                 build_ops=sl['build_ops'], check_refused=check_refused,
                                 pre_hook=pre_hook)
     return out
+
+
+def catalogue_summary():
+    """what the catalogues of this run looked like (for the evidence file)"""
+    out = []
+    for key, (entries, closed, keys) in _CACHE.items():
+        client, depth, push, upgrade, cfg, limit, two = key
+        out.append({'role': 'client' if client else 'server',
+                    'slice': 'push' if push else 'two' if two else 'upgrade' if upgrade else 'one',
+                    'config': cfg, 'depth_bound': depth, 'entries': len(entries),
+                    'max_depth_reached': max(d for _h, d in entries),
+                    'closed': bool(closed)})
+    return out
